@@ -65,6 +65,11 @@ def run_inject(W, cfg):
 def cfg_radial(tier, seed):
     top = 10 if tier == 'quick' else 16
     out = [{'n': n, 'm': m} for n in range(0, top + 1) for m in range(0, n + 1)]
+    # high radial orders (factorials beyond 20! = the int64 range): closed form, R(1) = 1 and orthogonality only (the degree-n bound
+    # obligations are left to the orders above)
+    for n in ((20, 21, 22, 24, 27) if tier == 'quick' else (20, 21, 22, 23, 24, 25, 26, 27, 28, 30)):
+        for m in sorted({n % 2, n % 2 + 2, n - 4, n - 2, n}):
+            out.append({'n': n, 'm': m, 'light': True})
     return out, len(out), True
 
 
@@ -81,9 +86,13 @@ def run_radial(W, cfg):
     W.ob('R = binomial form', P0, zern.radial(n, m, rho))
     one = W.mod('zernike').R(m, n, rnp.array([1.0]))
     W.ob_true('R(1) = 1', abs(float(one[0]) - 1.0) < 1e-9)
-    W.assume(rho <= 1)
-    W.ob_true('|R| <= 1 on [0,1] (upper)', P0 <= 1)
-    W.ob_true('|R| <= 1 on [0,1] (lower)', P0 >= -1)
+    if not cfg.get('light'):
+        W.assume(rho <= 1)
+        W.ob_true('|R| <= 1 on [0,1] (upper)', P0 <= 1)
+        W.ob_true('|R| <= 1 on [0,1] (lower)', P0 >= -1)
+    else:
+        half = W.mod('zernike').R(m, n, rnp.array([0.5, 0.75, 0.9]))
+        W.ob_true('|R| <= 1 at rho = 1/2, 3/4, 9/10', bool((abs(half) <= 1 + 1e-9).all()))
     if W.sym:
         # orthonormality of the radial part: int_0^1 R_n^m R_n'^m rho drho = delta/(2(n+1)), exact on lentil's coefficients
         cf = W.poly_coeffs(P0, rho)
